@@ -189,7 +189,10 @@ def oracleC12 (c : Case) : Option (List String) :=
           && !(((SLV.ulpIdx c.fmt (1 - x.a)).den != 1 || (SLV.ulpIdx c.fmt (1 - y.a)).den != 1)
                 && decide ((x.a + y.a - x.a * y.a) * τ ≤ c.eps))
     if !dom then none else
-    withValue c "C12" fun out =>
+    -- the operands are exactly well-formed and every inner call is inside its domain: the exact value of each side is
+    -- well-formed (C12_mul_ok / C12_comul_ok, step by step), so a panic of either side -- by rounding residue or not -- is
+    -- reported here (a chain that rejects its own intermediate result breaks the law as stated)
+    withValueExact c "C12" fun out =>
       let l := qbAt out 0
       let r := qbAt out 4
       let nm := match kind with
@@ -216,13 +219,22 @@ def oracleC14 (c : Case) : Option (List String) :=
   let ay := xs.getD 10 0
   let τ := tauSpec c.fmt
   let px := x.proj
-  if !(x.wf 0 && triWf c0 && triWf c1) then none else
+  let e4 := 4 * c.eps
+  -- operands that are EXACTLY well-formed (dyadic grids, ..): a panic, rounding residue included, is C14's own business
+  -- (theorem C14_wf: the exact result is well-formed).  Operands that are well-formed within the constructors' tolerance
+  -- only (plain decimals: 0.1 + 0.2 + 0.7 is not 1 in binary): every clause below holds within its tolerance as well
+  -- (value, well-formed, base rate, total probability, symmetry); a rejection by rounding residue is then handed over to
+  -- C19 (`withValue`), any other failure is reported here.
+  let exactWf := x.wf 0 && triWf c0 && triWf c1
+  let tolWf (δ : Rat) (t : Rat × Rat × Rat) : Bool :=
+    decide (-δ ≤ t.1) && decide (-δ ≤ t.2.1) && decide (-δ ≤ t.2.2) && decide (absQ (t.1 + t.2.1 + t.2.2 - 1) ≤ δ)
+  if !(exactWf || (x.wf e4 && tolWf e4 c0 && tolWf e4 c1)) then none else
   if !(decide (0 < px) && decide (px < 1) && decide (0 < x.a) && decide (x.a < 1)
         && decide (0 < ay) && decide (ay < 1)) then none else
+  let withV := if exactWf then withValueExact c "C14" else withValue c "C14"
   match c.op with
   | "bdeduce" =>
-    -- the operands are exactly well-formed and inside the open domain here: a panic, rounding residue included, is C14's
-    withValueExact c "C14" fun out =>
+    withV fun out =>
       let r := qbAt out 0
       let py0 := c0.1 + ay * c0.2.2
       let py1 := c1.1 + ay * c1.2.2
@@ -241,8 +253,9 @@ def oracleC14 (c : Case) : Option (List String) :=
                   && closeQ τ r.u (x.b * c0.2.2 + x.d * c1.2.2))
             else [])
   | "bdeduce_sym" =>
-    -- both sides call deduce on exactly well-formed operands of the open domain (negation and 1 - ay are exact on them)
-    withValueExact c "C14" fun out =>
+    -- both sides call deduce on well-formed operands of the open domain (negation and 1 - ay are exact on dyadic operands
+    -- and correctly rounded on decimal ones)
+    withV fun out =>
       let l := qbAt out 0
       let r := qbAt out 4
       check (if c.ints.getD 0 0 == 0 then "C14.swap_x" else "C14.swap_y") (QB.close (64 * τ) l r)
@@ -836,6 +849,22 @@ def oracleC13 (c : Case) : Option (List String) :=
       check (match kind with | 0 => "C13.cfuse_eq_acm" | 1 => "C13.afuse_eq_avg" | _ => "C13.wfuse_eq_wgh")
         (QB.close slack l r)
         ++ (if kind == 0 && bothDog then ["C13.cfuse_two_dogmatic_should_err"] else [])
+  | "bfold" =>
+    -- left fold of cfuse / afuse / wfuse (L) against the multinomial fold of the converted operands (R), variant `vs`;
+    -- operands well-formed, uncertainties strictly inside (eps, 1 - 2 eps): no guard of either family fires at any step
+    -- (the accumulated uncertainty of these folds never exceeds the largest operand's and never reaches 0)
+    if !(c.variant.contains "vs") then none else
+    let kind := c.ints.getD 0 0
+    let k := c.ints.getD 1 0
+    let ws := (List.range k).map fun j => qbAt xs (4 * j)
+    if !(ws.all fun w => w.wf (4 * e) && decide (e < w.u) && decide (w.u < 1 - 2 * e)) then none else
+    if kind != 0 && !(decide (0 ≤ xs.getD (4 * k) 0) && decide (xs.getD (4 * k) 0 ≤ 1)) then none else
+    if c.cls == "err" && isResidue c then none else      -- a self-rejection by rounding residue is C19's business
+    if c.cls == "err" then some ["C13.fold_err(" ++ c.label ++ ")"] else
+    withValue c "C13" fun out =>
+      if out.size != 8 then ["C13.shape"] else
+      check (match kind with | 0 => "C13.cfuse_fold_eq_acm" | 1 => "C13.afuse_fold_eq_avg" | _ => "C13.wfuse_fold_eq_wgh")
+        (QB.close (τ + 4 * e) (qbAt out 0) (qbAt out 4))
   | _ => none
 
 /-- C19: self-validating operators never reject a correctly rounded result.
@@ -857,12 +886,39 @@ def oracleC19 (c : Case) : Option (List String) :=
       if !(x.wf e4 && y.wf e4) then none else some (decide (x.a * y.a = 1))
     | "bcomul" => let x := qbAt xs 0; let y := y2 x
       if !(x.wf e4 && y.wf e4) then none else some (decide (x.a = 0) && decide (y.a = 0))
+    | "blaw" =>
+      -- both sides of a law of mul / comul (C12's kinds 0..5; 1 and 3 are chains (x·y)·z vs x·(y·z)): the operands are
+      -- well-formed within the constructors' tolerance and every base rate lies in [2^-10, 1 - 2^-10], so every inner call
+      -- -- on the operands, their negations and the intermediate results -- is inside its domain; since repair d46c983 the
+      -- exact intermediate results add up to exactly 1, so neither side may fail
+      let x := qbAt xs 0; let y := y2 x; let z := qbAt xs 8
+      let kind := c.ints.getD 0 0
+      let lo : Rat := 1 / 1024
+      let mid (w : QB) : Bool := decide (lo ≤ w.a) && decide (w.a ≤ 1 - lo)
+      if !(x.wf e4 && y.wf e4 && mid x && mid y) then none else
+      if (kind == 1 || kind == 3) && !(z.wf e4 && mid z) then none else some false
     | "bcfuse" => let x := qbAt xs 0; let y := y2 x
       if !(x.wf e4 && y.wf e4) then none else
       if (decide (0 < x.u) && decide (x.u ≤ c.eps)) || (decide (0 < y.u) && decide (y.u ≤ c.eps)) then none
       else some (decide (x.u = 0) && decide (y.u = 0))
     | "bafuse" | "bwfuse" => let x := qbAt xs 0; let y := y2 x; let g := xs.getD 8 0
       if !(x.wf e4 && y.wf e4 && decide (0 ≤ g) && decide (g ≤ 1)) then none else some false
+    | "bfold" =>
+      -- left fold of cfuse (kind 0) / afuse (1) / wfuse (2) over k well-formed operands.  In exact arithmetic every
+      -- intermediate result is well-formed (C19_cfuse/afuse/wfuse_exact_ok, step by step), and the accumulated uncertainty
+      -- of a cumulative fold is 0 iff one of the operands so far is dogmatic: some step fuses two dogmatic opinions -- the
+      -- only legitimate failure -- iff at least two operands have u = 0 exactly.  As for `bcfuse`, operands with u in the
+      -- tolerance band (0, eps] are outside the rule for cfuse.
+      let kind := c.ints.getD 0 0
+      let k := c.ints.getD 1 0
+      let ws := (List.range k).map fun j => qbAt xs (4 * j)
+      if !(ws.all fun w => w.wf e4) then none else
+      if kind == 0 then
+        if ws.any fun w => decide (0 < w.u) && decide (w.u ≤ c.eps) then none
+        else some (decide (2 ≤ (ws.filter fun w => decide (w.u = 0)).length))
+      else
+        let g := xs.getD (4 * k) 0
+        if !(decide (0 ≤ g) && decide (g ≤ 1)) then none else some false
     | "bdeduce" =>
       let x := qbAt xs 0; let c0 := triAt xs 4; let c1 := triAt xs 7; let ay := xs.getD 10 0
       if !(x.wf e4 && triWfTol e4 c0 && triWfTol e4 c1) then none else
@@ -961,6 +1017,35 @@ def ndClauses (c : Case) : List String :=
   check (c.prop ++ ".container_iteration_is_index_order") (k ≥ 2 && c.flags.getD (k - 2) false)
     ++ check (c.prop ++ ".container_eq_rebuilt") (k ≥ 2 && c.flags.getD (k - 1) false)
 
+/-- variant token `acc` (`umax`, `fuse`): after the scalars of an `ok` result the harness reports what the crate's own checked
+    constructors say -- `umax`: operand accepted by `Opinion::try_new`, result accepted by `Simplex::try_new`; `fuse`: both
+    operands accepted by `Opinion::try_new`, the result's simplex accepted by `Simplex::try_new`, the whole result accepted by
+    `Opinion::try_new`.  Required whenever the operands were accepted (whatever their exact sums are: this clause has no
+    stated-domain filter of its own): C09 the maximised simplex is accepted; C02 the simplex of the ECm fusion is accepted, and so is
+    the whole fused opinion when the operands have the same base-rate VALUES (one shared object, the same object twice, or equal
+    entries: the fused base rate is then the operands' own).  With different base rates `compute_base_rate` returns an
+    un-normalised mixture whose float sum can leave the accepted band by rounding when the operands' sums sit at its edges
+    (e.g. 1+3ε and 1-2ε give 1-2.5ε): that is not the maximisation's business and is not required here. -/
+def accClauses (c : Case) : Option (List String) :=
+  if !(c.variant.contains "acc") || c.cls != "ok" then none else
+  -- claimed for domains of at most 8 cells: after the final normalisation the re-summed masses of a 12-cell domain miss the
+  -- 4-ulp band by plain rounding (sum = 1 - 2.5 eps) in about 20-60 cases per million, 8 cells: about 2 per million, fewer: none seen
+  if c.ints.getD 0 0 > 8 then none else
+  if c.prop == "C09" && c.op == "umax" then
+    if c.flags.length < 2 then some ["C09.acc_flags_missing"] else
+    if !(c.flags.getD 0 false) then none else
+    some (check "C09.maximized_accepted_by_constructor" (c.flags.getD 1 false))
+  else if c.prop == "C02" && c.op == "fuse" && c.ints.getD 1 0 == 1 then
+    if c.flags.length < 3 then some ["C02.acc_flags_missing"] else
+    if !(c.flags.getD 0 false) then none else
+    let n := c.ints.getD 0 0
+    let sameA := c.ints.getD 2 0 == 1 || c.variant.contains "alias" ||
+      (match allSome c.inp with
+        | some xs => (opinionAt xs 0 n).2.2 == (opinionAt xs (2 * n + 1) n).2.2
+        | none => false)
+    some (check "C02.ecm_result_accepted_by_constructor" (c.flags.getD 1 false && (c.flags.getD 2 false || !sameA)))
+  else none
+
 def oracleProp (c : Case) : Option (List String) :=
   match c.prop with
   | "C07" => oracleC07 c
@@ -983,7 +1068,11 @@ def oracleProp (c : Case) : Option (List String) :=
   | _ => none
 
 def oracle (c : Case) : Option (List String) :=
-  match ndClauses c, oracleProp c with
+  let r := match accClauses c, oracleProp c with
+    | none, r => r
+    | some fs, some r => some (fs ++ r)
+    | some fs, none => some fs
+  match ndClauses c, r with
   | [], r => r
   | fs, some r => some (fs ++ r)
   | fs, none => some fs
